@@ -238,6 +238,12 @@ func (r *RootAssertionNode) ParseExprAsProducer(expr ast.Expr, doNotTrack bool) 
 		return nil, fldReadProduce()
 
 	case *ast.CallExpr:
+		// A conversion between nilable types (e.g., `(*int)(nil)` or `ptr(x)`) yields nil exactly
+		// when its operand is nil, so the conversion is parsed as its operand.
+		if operand := r.nilPreservingConversionOperand(expr); operand != nil {
+			return r.ParseExprAsProducer(operand, doNotTrack)
+		}
+
 		// we delay this check until we're sure we have to make it, as it could be expensive
 		litArgs := func() bool {
 			for _, expr := range expr.Args {
